@@ -140,7 +140,7 @@ def _seq_case(rng, force=None):
         if model != "ideal" and rng.random() < 0.6:
             b["init"] = b["cap"] * rng.uniform(max(b["tsoc"], 0.05), 0.97)  # in the tail, not full
     return {"kind": "seq", "giant": giant, "batt": b, "V": rng.choice([120, 208, 240, 277, round(rng.uniform(100, 500), 1)]),
-            "T": rng.choice([0.1, 0.5, 1, 5, 7.5, 15, 60, 120, round(rng.uniform(0.1, 120), 2)]) if not giant else rng.choice([1, 5, 60, 1440, 60000]),
+            "T": rng.choice([0.1, 0.5, 1, 5, 7.5, 15, 60, 120, round(rng.uniform(0.1, 120), 2)]) if not giant else rng.choice([1, 5, 15, 60]),
             "n": rng.choice([1, 5, 30, 100, 200]), "pseed": rng.randrange(1 << 30),
             # one battery object seen by supplies of different voltage / period lengths from call to call (an EV reused on
             # another network, stations of different voltage), and written to JSON and restored in the middle
